@@ -34,7 +34,7 @@ def thresholds(tier):
 
 
 def knobs_for(rng):
-  return {"depth": rng.choice([0, 1, 1, 2]), "max_children": rng.choice([1, 2, 3]), "p_ff": 0.15, "p_connect": rng.choice([0.6, 0.8]), "p_connect_reset": rng.choice([0, 0.4]), "p_const_generic": rng.choice([0, 0.5]), "p_const": rng.choice([0, 0.15]),
+  return {"depth": rng.choice([0, 1, 1, 2]), "max_children": rng.choice([1, 2, 3]), "p_ff": 0.15, "p_connect": rng.choice([0.6, 0.8]), "p_connect_reset": rng.choice([0, 0.4]), "p_branchy": rng.choice([0, 0.2]), "p_const_generic": rng.choice([0, 0.5]), "p_const": rng.choice([0, 0.15]),
           "p_split": rng.choice([0.4, 0.7]), "p_struct": 0.4, "max_sigs": rng.choice([4, 6]), "expr_depth": 1, "p_if": 0.1,
           "p_nested_field": rng.choice([0, 0.3]), "p_list_field": rng.choice([0, 0.3]), "p_func": rng.choice([0, 0.3]), "p_shadow": 0.3, "p_nested_slice": rng.choice([0, 0.5]), "p_omit_bounds": rng.choice([0, 0.6]), "p_vfunc": rng.choice([0, 0.4]), "p_subclass": rng.choice([0, 0.5])}
 
@@ -158,7 +158,9 @@ def run_case(sh, case):
         first = nets
       # simulate the last permutation and the first: members carry the writer's value
       if k in (0, sh.params["perms"] - 1):
-        top.apply(__import__("pymtl3").DefaultPassGroup())
+        # the first order under the default pass group, the last one under any of the five
+        smode = "default" if k == 0 else rng.choice(["default", "simple", "unroll", "heutopo", "mamba"])
+        M.apply_mode(top, smode, rng); sh.count("member_simulations:" + smode)
         live = M.Live(top)
         widths = {p: w for p, w in G.top_inputs(d)}
         seq = M.gen_inputs(rng, d, 4)
